@@ -898,11 +898,6 @@ class ConstructedPayloadDecoderBase(AbstractConstructedPayloadDecoder):
 
                                 asn1Object.setComponentByPosition(idx, component)
 
-            else:
-                inconsistency = asn1Object.isInconsistent
-                if inconsistency:
-                    raise inconsistency
-
         else:
             componentType = asn1Spec.componentType
 
@@ -923,6 +918,11 @@ class ConstructedPayloadDecoderBase(AbstractConstructedPayloadDecoder):
                 )
 
                 idx += 1
+
+        # constraints on the value as a whole (SIZE, WITH COMPONENTS)
+        inconsistency = asn1Object.isInconsistent
+        if inconsistency:
+            raise inconsistency
 
         yield asn1Object
 
@@ -1130,11 +1130,6 @@ class ConstructedPayloadDecoderBase(AbstractConstructedPayloadDecoder):
 
                                     asn1Object.setComponentByPosition(idx, component)
 
-                else:
-                    inconsistency = asn1Object.isInconsistent
-                    if inconsistency:
-                        raise inconsistency
-
         else:
             componentType = asn1Spec.componentType
 
@@ -1164,6 +1159,11 @@ class ConstructedPayloadDecoderBase(AbstractConstructedPayloadDecoder):
                 )
 
                 idx += 1
+
+        # constraints on the value as a whole (SIZE, WITH COMPONENTS)
+        inconsistency = asn1Object.isInconsistent
+        if inconsistency:
+            raise inconsistency
 
         yield asn1Object
 
